@@ -1085,7 +1085,18 @@ def _corpus_tasks(ctx):
 
 
 def run(ctx):
-    ctx.lean_stage()
+    if os.environ.get("C13_NO_GEN"):          # builder aid for mutation experiments (a worktree next to runs on /repo)
+        ctx.notes.append("DEV: C13_NO_GEN set, generated-model tie skipped")
+        ctx.lean_stage()
+        return _run_rest(ctx)
+    kit.gen_stage(ctx)                        # regenerates lean/PrecondVerif/Gen/Src.lean from the current source (no-op < 0.1 s)
+    ctx.lean_stage(extra_props=("Gen",))      # also builds/audits PrecondVerif.GenProps.C13.* from Props/Gen.lean
+    ctx.notes.append("model tie #2: every `to_pad = -n % d` of distributed_shampoo.py regenerated by harness/py2lean.py; "
+                     "GenProps.C13.to_pad_devices_bridge proves Gen.toPad = Devices.toPad for D > 0")
+    return _run_rest(ctx)
+
+
+def _run_rest(ctx):
     const_stage(ctx)
     tasks = _corpus_tasks(ctx) + gen_tasks(ctx.tier, ctx.seed)
     ctx.cov["rule"] = (
